@@ -112,7 +112,8 @@ DecNorm(t) ==
         all == [i \in 1..(Len(ip) + Len(fp)) |-> (IF i <= Len(ip) THEN ip[i] ELSE fp[i - Len(ip)]) - 48]
         lead == LET NZ == {i \in 1..Len(all) : all[i] # 0} IN IF NZ = {} THEN 0 ELSE CHOOSE i \in NZ : \A j \in NZ : i <= j
         trail == LET NZ == {i \in 1..Len(all) : all[i] # 0} IN IF NZ = {} THEN 0 ELSE CHOOSE i \in NZ : \A j \in NZ : j <= i
-    IN IF lead = 0 THEN [zero |-> TRUE, neg |-> FALSE, digs |-> <<>>, e10 |-> 0]
+    \* (the sign of a zero is part of a double's value: "-0.0" and "0.0" denote different bit patterns)
+    IN IF lead = 0 THEN [zero |-> TRUE, neg |-> neg, digs |-> <<>>, e10 |-> 0]
        ELSE [zero |-> FALSE, neg |-> neg, digs |-> SubSeq(all, lead, trail), e10 |-> ev + Len(ip) - (lead - 1)]
 RECURSIVE SameValue(_, _, _)
 \* tree value v (JsonValue, doubles with fmt/ret) vs denoted value d (Grammar: ints and number tokens)
